@@ -154,19 +154,28 @@ def nesting_estimate(text):
 
 
 def first_error_target(root):
-    """C07/C13: in document order the first error leaf, or the leaf following the first
-    error node, whichever comes first -> (kind, node, target_leaf)"""
+    """C07/C13: the first error the recovering parser marks.  Every error leaf is an offending
+    token; every error node was closed because the token that follows it could not be consumed.
+    The first error is the earliest of these targets in document order ("the first error leaf,
+    or the leaf that follows the first error node").  -> (kind, node, target_leaf) or None"""
+    ls = leaves(root)
+    idx = {id(l): i for i, l in enumerate(ls)}
+    best = None
     for n in walk(root):
         if n.type == 'error_leaf':
-            return 'leaf', n, n
-        if n.type == 'error_node':
+            cand = (idx[id(n)], 'leaf', n)
+        elif n.type == 'error_node':
             last = n
-            while hasattr(last, 'children'):
+            while getattr(last, 'children', None):
                 last = last.children[-1]
-            # next leaf in document order, computed from the leaf list
-            ls = leaves(root)
-            for i, l in enumerate(ls):
-                if l is last:
-                    return 'node', n, (ls[i + 1] if i + 1 < len(ls) else None)
-            return 'node', n, None
-    return None
+            if id(last) not in idx:
+                continue
+            cand = (idx[id(last)] + 1, 'node', n)
+        else:
+            continue
+        if best is None or cand[0] < best[0]:
+            best = cand
+    if best is None:
+        return None
+    i, kind, n = best
+    return kind, n, (ls[i] if i < len(ls) else None)
